@@ -68,6 +68,8 @@ pub fn shared(prop: &'static str, seed: u64) -> Vec<Scenario> {
     add(Tier::Quick, format!("depwd.{}", p.clone().native().tag()), d_depwd, 400, 120, Box::new(t_depwd(pc.clone().native())));
     add(Tier::Quick, format!("fund.close.{}", p.tag()), d_fund, 400, 150, Box::new(t_fund(pc.clone(), 0)));
     add(Tier::Quick, format!("fund.close.{}", P::new(prop, Sell, seed).tag()), d_fund, 400, 150, Box::new(t_fund(P::new(prop, Sell, seed).concrete_prefix(), 0)));
+    add(Tier::Quick, format!("close.against.{}", pc.clone().native().fees().tag()), d_close, 400, 150, Box::new(t_close(pc.clone().native().fees(), false)));
+    add(Tier::Quick, format!("close.with.{}", P::new(prop, Sell, seed).concrete_prefix().native().fees().tag()), d_close, 400, 150, Box::new(t_close(P::new(prop, Sell, seed).concrete_prefix().native().fees(), true)));
     let d_out = "the vAMM's own insurance_fund config field points at an outsider account; fees symbolic";
     let po = pc.clone().fees().vamm_ins_outsider();
     add(Tier::Quick, format!("close.against.{}", po.tag()), d_out, 400, 150, Box::new(t_close(po.clone(), false)));
@@ -155,6 +157,10 @@ pub fn c04(seed: u64) -> Vec<Scenario> {
         }
         add(Tier::Quick, format!("close10x.zero-equity.{}", p.clone().fees().tag()), d, 400, 150, Box::new(t_close_regime(pc.clone().fees(), 7)));
         add(Tier::Quick, format!("dep-close.{}", p.clone().fees().tag()), d, 400, 150, Box::new(t_dep_close(pc.clone().fees(), 45)));
+        add(Tier::Quick, format!("pclose.against.{}", p.tag()), d, 400, 150, Box::new(t_pclose(pc.clone(), false)));
+        add(Tier::Quick, format!("pclose.with.{}", p.tag()), d, 400, 150, Box::new(t_pclose(pc.clone(), true)));
+        add(Tier::Quick, format!("pclose.against.{}", p.clone().fees().tag()), d, 400, 150, Box::new(t_pclose(pc.clone().fees(), false)));
+        add(Tier::Quick, format!("pclose.with.{}", p.clone().native().tag()), d, 400, 150, Box::new(t_pclose(pc.clone().native(), true)));
         add(Tier::Quick, format!("prepaid-closes.{}", p.tag()), d, 400, 150, Box::new(t_prepaid_closes(pc.clone())));
         add(Tier::Quick, format!("prepaid-closes.{}", p.clone().native().fees().tag()), d, 400, 150, Box::new(t_prepaid_closes(pc.clone().native().fees())));
         add(Tier::Quick, format!("dep-close.{}", p.clone().native().tag()), d, 400, 150, Box::new(t_dep_close(pc.clone().native(), 45)));
@@ -185,6 +191,8 @@ pub fn c05(seed: u64) -> Vec<Scenario> {
         add(Tier::Quick, format!("opp.{}", p.clone().lev().tag()), d, 600, 150, Box::new(t_open2(pc.clone().lev(), false)));
         add(Tier::Quick, format!("opp.{}", p.tag()), d, 600, 150, Box::new(t_open2(pc.clone(), false)));
         add(Tier::Quick, format!("depwd.{}", p.tag()), d, 400, 120, Box::new(t_depwd(pc.clone())));
+        add(Tier::Quick, format!("adverse.withdraw.{}", p.tag()), d, 400, 150, Box::new(t_adverse_withdraw(pc.clone(), 15)));
+        add(Tier::Quick, format!("adverse.withdraw.deep.{}", p.tag()), d, 400, 150, Box::new(t_adverse_withdraw(pc.clone(), 40)));
         add(Tier::Quick, format!("fund.withdraw.{}", p.tag()), d, 600, 150, Box::new(t_fund(pc.clone(), 1)));
         add(Tier::Quick, format!("fund.increase.{}", p.tag()), d, 600, 150, Box::new(t_fund(pc.clone(), 2)));
         add(Tier::Quick, format!("fund.withdraw.{}", pc.clone().trend().tag()), d, 600, 150, Box::new(t_fund(pc.clone().trend(), 1)));
@@ -245,6 +253,7 @@ pub fn liq(prop: &'static str, seed: u64) -> Vec<Scenario> {
             add(Tier::Quick, format!("band.cheap-pool.{}.mover-with.{}", rn, pc.tag()), d_band, 600, 150, Box::new(t_liq_band(pc.clone(), true, ru, true)));
             add(Tier::Quick, format!("band.cheap-pool.{}.mover-against.{}", rn, pc.tag()), d_band, 600, 150, Box::new(t_liq_band(pc.clone(), false, ru, true)));
         }
+        add(Tier::Quick, format!("registry-permuted.{}", pc.tag()), "three registered vAMMs, the first removed from the registry (the stored list is re-ordered), liquidations on the remaining two", 400, 150, Box::new(t_liq_registry(pc.clone())));
         add(Tier::Quick, format!("prepaid-bad-debt.{}", pc.tag()), d, 600, 150, Box::new(t_liq_prepaid(pc.clone())));
         add(Tier::Quick, format!("prepaid-bad-debt.{}", pc.clone().native().tag()), d, 600, 150, Box::new(t_liq_prepaid(pc.clone().native())));
         add(Tier::Quick, format!("shallow.{}", pc.clone().real_feed().tag()), d, 600, 150, Box::new(t_liq(pc.clone().real_feed(), 5)));
